@@ -3,7 +3,7 @@
 # Confirms in a scratch worktree: patch applies, baseline suite green with it, demo fails with it and passes without it.
 # On success copies to /verif/seeded/<PROP>-<k>/ (patch.diff, demo.py, meta.json).
 set -u
-P=$1; K=$2; OUT=${3:-/tmp/wt/$P/_out}
+P=$1; K=$2; OUT=${3:-/tmp/wt/$P/_out}; T=${4:-$K}   # T: index under which the seed is stored
 WT=/root/scratch/seed_${P}_${K}_$$
 mkdir -p /root/scratch
 git -C /repo worktree add -q --detach "$WT" HEAD || exit 2
@@ -14,9 +14,9 @@ clean=$(run_demo)
 if ! git apply "$OUT/mutant$K.diff"; then echo "RESULT $P-$K patch does not apply (after fix commits?)"; exit 3; fi
 mut=$(run_demo)
 base=$(python3 /verif/tools/baseline.py "$WT" | tail -1)
-echo "RESULT $P-$K demo_clean_exit=$clean demo_mutant_exit=$mut baseline: $base"
+echo "RESULT $P-$T demo_clean_exit=$clean demo_mutant_exit=$mut baseline: $base"
 if [ "$clean" = 0 ] && [ "$mut" != 0 ] && echo "$base" | grep -q "missing 0"; then
-  D=/verif/seeded/$P-$K; mkdir -p "$D"
+  D=/verif/seeded/$P-$T; mkdir -p "$D"
   cp "$OUT/mutant$K.diff" "$D/patch.diff"; cp "$OUT/demo$K.py" "$D/demo.py"
   python3 - "$OUT/meta$K.json" "$D/meta.json" "$P" "$clean" "$mut" "$base" <<'PY'
 import json, sys
@@ -30,5 +30,5 @@ json.dump(m, open(dst, "w"), indent=1)
 PY
   echo "KEPT $D"
 else
-  echo "REJECTED $P-$K"
+  echo "REJECTED $P-$T"
 fi
